@@ -67,6 +67,97 @@ def amen_frame(ob, which, d, guess):
     ob.frame()
 
 
+@scenario('C11', 'amen.entry', ['torchtt._amen.amen_mv', 'torchtt._amen.amen_mm', 'torchtt._amen._amen_mm_python'],
+          quick=[dict(which=w, d=2, guess=g) for w in ('amen_mv', 'amen_mm') for g in (False, True)], replay=None, max_paths=2000)
+def amen_entry(ob, which, d, guess):
+    """caller / callee contracts along the path from the public entry point to the first local product:
+       * amen_mv / amen_mm hand the operands' OWN cores to the sweep routine (amen_mm: the two core lists element by element, amen_mv: A's
+         cores and the right-hand side's cores viewed as [r, n, 1, R] with the same entries) together with their mode sizes -- the
+         product that is approximated is the product of the arguments, not of compressed or converted copies;
+       * the first local product of the first sweep is `_local_AB(Phis_rhs[k], Phis_rhs[k+1], A_cores[k], B_cores[k])` with k = 0, the
+         current interfaces of the sweep and the cores that were handed in (what `_local_AB` and the interface updates compute
+         is the scenario `interfaces`).  The path ends at that call: nothing after it is claimed."""
+    from . import hooks
+    ex = ob.ex
+    hooks.install(ex)
+    A = ob.tt('A', d, ttm=True, dtype='float64')
+    if which == 'amen_mv':
+        B = ob.tt('x', d, N=A.N_, dtype='float64')
+        g = ob.tt('g', d, N=A.M_, dtype='float64') if guess else None
+    else:
+        B = ob.tt('B', d, ttm=True, M=A.N_, dtype='float64')
+        g = ob.tt('g', d, ttm=True, M=A.M_, N=B.N_, dtype='float64') if guess else None
+    Ac, Bc = list(A.attrs['cores']), list(B.attrs['cores'])
+    state = {}
+
+    def same(name, got, want):
+        """`got` is the tensor `want` or a copy of it (same shape, same entries) -- a copy is a harmless refactoring, a compressed or
+        converted tensor is not"""
+        if got is want:
+            ob.ok(name, 'post')
+            return
+        if not (isinstance(got, STensor) and got.ndim == want.ndim and got._val is not None and got.dtype == want.dtype):
+            ob.fail(name, 'post', 'expected the tensor %s (or a copy), got %r' % (getattr(want, 'name', '?'), got))
+            return
+        all_eq(ob, name + '.shape', got.shape, want.shape)
+        i = H.fresh_axis_index(ex, want)
+        ob.prove_eq(name + '.value', got.at(i), want.at(i))
+
+    def same_list(name, got, want):
+        ok = isinstance(got, list) and len(got) == len(want)
+        ob.prove(name + '.length', ok)
+        if ok:
+            for k_, (x_, y_) in enumerate(zip(got, want)):
+                same('%s[%d]' % (name, k_), x_, y_)
+
+    def on_sweep(ex_, f_, args, kwargs):
+        if 'sweep' in state:
+            return NotImplemented
+        state['sweep'] = True
+        a_cores, b_cores, M, N, K = args[0], args[1], args[2], args[3], args[4]
+        same_list('sweep_gets_the_cores_of_A', a_cores, Ac)
+        if which == 'amen_mm':
+            same_list('sweep_gets_the_cores_of_B', b_cores, Bc)
+            all_eq(ob, 'sweep.N', list(N), B.N_)
+        else:
+            ok = isinstance(b_cores, list) and len(b_cores) == d and all(isinstance(c, STensor) and c.ndim == 4 for c in b_cores)
+            ob.prove('sweep_gets_4d_views_of_the_cores_of_x', ok)
+            if ok:
+                for k, (c4, c3) in enumerate(zip(b_cores, Bc)):
+                    all_eq(ob, 'sweep.x_core%d.shape' % k, c4.shape, [c3.shape[0], c3.shape[1], 1, c3.shape[2]])
+                    if c4._val is not None:
+                        i = H.fresh_axis_index(ex_, c3)
+                        ob.prove_eq('sweep.x_core%d.value' % k, c4.at([i[0], i[1], (0,), i[2]]), c3.at(i))
+            all_eq(ob, 'sweep.N', list(N), [1] * d)
+        all_eq(ob, 'sweep.M', list(M), A.M_)
+        all_eq(ob, 'sweep.K', list(K), A.N_)
+        state['a_cores'], state['b_cores'] = a_cores, b_cores
+        return NotImplemented
+
+    def on_local(ex_, f_, args, kwargs):
+        fr = None
+        for fr_ in reversed(ex_.frames):
+            if fr_.func is not None and fr_.func.qualname.endswith('_amen_mm_python'):
+                fr = fr_
+                break
+        if fr is None or 'sweep' not in state:
+            return NotImplemented
+        L = fr.locals
+        k = L['k']
+        ob.prove('first_local_product_is_core_0', k == 0)
+        same('local.left_interface_is_Phis_rhs_k', args[0], L['Phis_rhs'][k])
+        same('local.right_interface_is_Phis_rhs_k_plus_1', args[1], L['Phis_rhs'][k + 1])
+        same('local.core_of_A_is_the_operand_core', args[2], state['a_cores'][k])
+        same('local.core_of_B_is_the_operand_core', args[3], state['b_cores'][k])
+        state['local'] = True
+        raise I.PathEnd()
+    ex.call_hooks['torchtt._amen._amen_mm_python'] = on_sweep
+    ex.call_hooks['torchtt._amen._local_AB'] = on_local
+    f = ex.module('torchtt._amen').env[which]
+    ex.call(f, [A, B], {'nswp': 1, ('x0' if which == 'amen_mv' else 'X0'): g})
+    ob.fail('local_product_reached', 'post', 'the sweep finished without a local product')
+
+
 def _interfaces(ob, which, d, k):
     from . import c12 as _c12
     _c12.interfaces(ob, which, d, k)
